@@ -67,7 +67,7 @@ def ns_monitor(ctx):
     ctx.log("TLC NsMonitor: %d distinct states; pinned-commit model never enables late-stored informers (F4); preloaded objects of a new namespace are never delivered (F5)" % r["distinct"])
     d = os.path.dirname(ctx.path("nsbeh", "x"))
     vlib.tlc(ctx, "NsMonitor", "NsMonitor", "Sim.cfg", mode="sim", sim_num=ctx.pick(150, 1500), sim_depth=30, timeout=300, want_prints=False,
-             consts={"FixF4": "FALSE" if asis else "TRUE"}, simfile=os.path.join(d, "b"))
+             consts={"FixF4": "FALSE" if asis else "TRUE", "FixF5": "FALSE" if asis else "TRUE"}, simfile=os.path.join(d, "b"))
     cases = []
     for f in sorted(glob.glob(os.path.join(d, "b_*"))):
         sts = tlaparse.parse_behaviour_file(f)
